@@ -73,6 +73,8 @@ def norm(f, i, roles=None, defs=None, depth=0):
         return "(%s %s %s)" % (N(c[0]), n["op"], N(c[1]))
     if k == "UnaryOperator":
         a = N(c[0])
+        if n.get("op") == "&" and not n.get("post") and re.fullmatch(r"\(?\*[\w$>.-]+\)?", a):
+            return a.strip("()")[1:]         # `&*p` designates p
         return a + n["op"] if n.get("post") else n["op"] + a
     if k == "MemberExpr" and c:
         return N(c[0]) + ("->" if n.get("arrow") else ".") + n["m"]
@@ -767,6 +769,11 @@ def pool_layout(prog, chk, rid):
             R = base_local(f, ev[0][1])
             inits = [f.r(init) for kind, _n, init in defs.get(R["id"], []) if init is not None] if R else []
             obj = f.r(ev[0][1]) if ev[0][1] is not None else ""
+            on_ = f.nodes[f.strip(ev[0][1])] if ev[0][1] is not None else None
+            if on_ is not None and on_["k"] == "DeclRefExpr" and on_["ref"].get("dk") == "local":
+                ini_ = q.single_def(f, on_["ref"]["id"], defs)      # an element pointer kept in a local: one step back to `(T*)(item + 1)`
+                if ini_ is not None:
+                    obj = f.r(ini_)
             # the node comes from the element's address (one header back) or straight from an iterator parameter
             pn_ = "|".join(re.escape(p_["n"]) for p_ in f.params) or "\0"
             ok = bool(inits) and all(re.search(r"\(.*Item \*\)&\w+ - 1\)$", s) or re.fullmatch(r"(%s)\.item" % pn_, q.no_casts(s)) for s in inits) and \
@@ -1090,9 +1097,23 @@ def wrappers(prog, chk, rid, classes=tuple(NODE)):
                     if not rm:
                         ok, got = False, "no remove() call"
                     else:
-                        a = N(q.call_args(f, rm[0])[0])
+                        an_ = q.call_args(f, rm[0])[0]
+                        # an iterator built for the call (`const Iterator lastIt(last); remove(lastIt)`) stands for the node it was built from
+                        for _ in range(3):
+                            x_ = f.nodes[f.strip(an_)]
+                            if x_["k"] == "DeclRefExpr" and x_["ref"].get("dk") == "local" and "Iterator" in (x_["ref"].get("t") or ""):
+                                ini_ = q.single_def(f, x_["ref"]["id"], defs)
+                                if ini_ is not None:
+                                    an_ = ini_
+                                    continue
+                            if x_["k"] in ("CXXConstructExpr", "CXXTemporaryObjectExpr", "CXXFunctionalCastExpr", "MaterializeTemporaryExpr", "CXXBindTemporaryExpr") and \
+                               len([c_ for c_ in x_["c"] if c_ >= 0]) == 1 and "Iterator" in (x_.get("t") or x_.get("callee") or ""):
+                                an_ = [c_ for c_ in x_["c"] if c_ >= 0][0]
+                                continue
+                            break
+                        a = N(an_)
                         a2 = re.sub(r"^(const )?[\w:<>, ]*Iterator\((.*)\)$", r"\2", a)
-                        ok = (a in BEGIN) if f.short == "removeFront" else (a2 in LASTN)
+                        ok = (a in BEGIN or a2 in ("this->_begin.item", "this->begin().item")) if f.short == "removeFront" else (a2 in LASTN)
                         got = "remove(%s)" % a
                     want = "remove(begin())" if f.short == "removeFront" else "remove(Iterator(last node))"
                 elif f.short in ("front", "back") and not f.params and rets:
